@@ -224,7 +224,82 @@ class _Ordered:
             self.dbusOrder.append(name)
 
 
-STYLES = ('list', 'tuple', 'object+pairs', 'wrapped')
+class _OrderedSeq(tuple):
+    """A struct given as a tuple subclass (as namedtuple subclasses are)
+    that declares its field order: the sequence content is in another order
+    than the declared one, so positional use shows."""
+
+    def __new__(cls, fields):
+        self = tuple.__new__(cls, tuple(reversed(fields)))
+        self.dbusOrder = []
+        for i, f in enumerate(fields):
+            setattr(self, 'f%d' % i, f)
+            self.dbusOrder.append('f%d' % i)
+        return self
+
+
+class _OrderedList(list):
+    """the same as a list subclass with attributes"""
+
+    def __init__(self, fields):
+        list.__init__(self, reversed(fields))
+        self.dbusOrder = []
+        for i, f in enumerate(fields):
+            setattr(self, 'f%d' % i, f)
+            self.dbusOrder.append('f%d' % i)
+
+
+class _OddStr(str):
+    """a str subclass whose textual rendering is not its content (as the
+    members of `class Color(str, enum.Enum)` are)"""
+
+    def __str__(self):
+        return 'Odd.str'
+
+    def __format__(self, spec):
+        return 'Odd.format'
+
+    def __repr__(self):
+        return 'OddStr(%s)' % str.__repr__(self)
+
+
+class _OddInt(int):
+    def __str__(self):
+        return 'Odd.int'
+
+    def __repr__(self):
+        return 'OddInt(%s)' % int.__repr__(self)
+
+    def __format__(self, spec):
+        return 'Odd.format'
+
+
+class _OddFloat(float):
+    def __str__(self):
+        return 'Odd.float'
+
+    def __repr__(self):
+        return 'OddFloat(%s)' % float.__repr__(self)
+
+
+class _SubList(list):
+    def __repr__(self):
+        return 'SubList(%s)' % list.__repr__(self)
+
+
+class _SubDict(dict):
+    def __repr__(self):
+        return 'SubDict(%s)' % dict.__repr__(self)
+
+
+import collections as _collections
+_NT = _collections.namedtuple('NT', 'x y')
+
+ODD_ENV = {'NT': _NT, 'OddStr': _OddStr, 'OddInt': _OddInt, 'OddFloat': _OddFloat,
+           'SubList': _SubList, 'SubDict': _SubDict}
+
+
+STYLES = ('list', 'tuple', 'object+pairs', 'wrapped', 'subclassed')
 
 
 def to_tx(t, v, style='list'):
@@ -234,6 +309,12 @@ def to_tx(t, v, style='list'):
       object+pairs  structs as objects with dbusOrder, dict arrays as a list
                     of pairs, byte arrays as bytearray
       wrapped       integers / paths / signatures in their wrapper classes
+      subclassed    subclasses of the built-in types: structs as tuple /
+                    list subclasses that declare their field order (content
+                    in another order), arrays as list subclasses, dict
+                    arrays as OrderedDict / dict subclasses, strings,
+                    integers and doubles as subclasses whose str() is not
+                    their value
     """
     from txdbus import marshal as M
     c, ch = t
@@ -246,12 +327,18 @@ def to_tx(t, v, style='list'):
             pairs = [(to_tx(kt, k, style), to_tx(vt, x, style)) for k, x in v]
             if style == 'object+pairs':
                 return [list(p) for p in pairs]
+            if style == 'subclassed':
+                import collections
+                return collections.OrderedDict(pairs) if len(pairs) % 2 \
+                    else _SubDict(pairs)
             return dict(pairs)
         items = [to_tx(et, x, style) for x in v]
         if et[0] == 'y' and style == 'object+pairs':
             return bytearray(items)
         if style == 'tuple':
             return tuple(items)
+        if style == 'subclassed':
+            return _SubList(items)
         return items
     if c == '(':
         fields = [to_tx(ft, fv, style) for ft, fv in zip(ch, v)]
@@ -259,9 +346,19 @@ def to_tx(t, v, style='list'):
             return tuple(fields)
         if style == 'object+pairs':
             return _Ordered(fields)
+        if style == 'subclassed':
+            return _OrderedSeq(fields) if len(fields) % 2 == 0 \
+                else _OrderedList(fields)
         return fields
     if style == 'wrapped' and c in M.variantClassMap:
         return M.variantClassMap[c](v)
+    if style == 'subclassed':
+        if c in 'sog':
+            return _OddStr(v)
+        if c in 'ynqiuxth':
+            return _OddInt(v)
+        if c == 'd':
+            return _OddFloat(v)
     return v
 
 
